@@ -89,6 +89,19 @@ Definition weight (neg : bool) (d : list space) (a : list R) : list R :=
   let (fct, a') := weight_go neg d r1 a in
   map (fun x => rmul x (pw neg fct)) a'.
 
+(* ---- Field.weight(power, spaces=idx): only sub-domain idx is weighted (same statements, the loop
+        runs over `spaces = (idx,)`; `fct` stays 1. for a per-pixel volume).  A missing sub-domain
+        (parse_spaces raises) is excluded by the theorems. *)
+Definition weight_at (neg : bool) (d : list space) (idx : nat) (a : list R) : list R :=
+  match nth_error d idx with
+  | None => a
+  | Some s =>
+      match sdv s with
+      | Scalar v => map (fun x => rmul x (pw neg (rmul r1 v))) a
+      | PerPix w => map (fun x => rmul x (pw neg r1)) (mul_axis neg (ssize s) (prodsz (skipn (S idx) d)) w a)
+      end
+  end.
+
 (* ---- DOFDistributor._times:
         arr = x.val.reshape(self._hshape)                      # (presize, nbin, postsize)
         oarr[()] = arr[(slice(None), self._dofdex, slice(None))]   # -> (presize, n, postsize)   *)
@@ -133,7 +146,8 @@ Definition pspace (pindex : list nat) (nbin : nat) (pdvol : R) : space :=
 (* ---- sugar._single_power_analyze(field, idx, binbounds):
         power_domain = PowerSpace(field.domain[idx], binbounds)
         pd = PowerDistributor(field.domain, power_domain, idx)
-        return pd.adjoint_times(field.weight(1)).weight(-1)
+        res = pd.adjoint_times(field.weight(1, spaces=idx))      # fixes/C10-3.patch: only the analysed
+        return res.weight(-1, spaces=idx)                        # sub-domain is weighted
       The binning enters through pindex/nbin (what PowerSpace computed; C08's subject).
       None = an exception of the real code:
         idx out of range; "harmonic partner must have scalar volume factors"; "empty bins detected";
@@ -152,7 +166,7 @@ Definition single_power_analyze (d : list space) (idx : nat) (pindex : list nat)
             let dpre := firstn idx d in
             let dpost := skipn (S idx) d in
             let d' := dpre ++ pspace pindex nbin pdvol :: dpost in
-            Some (d', weight true d' (pd_adjoint d idx pindex nbin (weight false d x)))
+            Some (d', weight_at true d' idx (pd_adjoint d idx pindex nbin (weight_at false d idx x)))
       end
   end.
 
